@@ -172,6 +172,9 @@ func runScenario(run *evid.Run, src *source, k, nscen, nextra int) {
 			src.delays.Store(fmt.Sprintf("s%d", k), delayFor(s.plan.Delay, run.Seed*31+int64(k)))
 			defer src.delays.Delete(fmt.Sprintf("s%d", k))
 		}
+	} else if k >= nscen+nextra {
+		s.plan = genRecentFaultPlan(s.r, src, k-nscen-nextra, run.Seed)
+		run.Count("recent_fault_scenarios", 1)
 	} else if k >= nscen {
 		s.plan = genRefPlan(s.r, src, k, nscen, nextra, run.Seed)
 		run.Count("reference_unlinked_scenarios_"+s.plan.RefHow, 1)
@@ -180,7 +183,7 @@ func runScenario(run *evid.Run, src *source, k, nscen, nextra int) {
 	}
 	s.srvRepo = fmt.Sprintf("s%d", k)
 	tail := genTail(run.Seed, src, k, nscen, s.plan)
-	if src.wide {
+	if src.wide || s.plan.Kind == 10 {
 		tail = nil
 	}
 	if tail != nil {
@@ -188,8 +191,13 @@ func runScenario(run *evid.Run, src *source, k, nscen, nextra int) {
 		run.Count("tail_shapes_planned_"+tail.Shape, 1)
 	}
 	fp := genFault(run.Seed, src.idx, k, s.plan)
-	if s.plan.Kind == 8 || s.plan.Kind == 9 {
+	if s.plan.Kind == 8 || s.plan.Kind == 9 || s.plan.Kind == 10 {
 		fp = nil // these templates run against a server that answers correctly …
+	}
+	if s.plan.Kind == 10 {
+		// … and template 10: one object that only a recent ref / the commits window needs cannot be downloaded at all;
+		// the victim is chosen right before the command (armRecentVictim), never by maybeArm
+		fp = &faultPlan{Kind: []string{"get-503-persistent", "get-404-persistent"}[(src.idx/2+k)%2], Retries: 1 + (src.idx+k)%2, Via: []string{"home", "dash-c", "clone-config"}[(src.idx+k)%3], Target: 1 << 30, NVictims: 1, TailOnly: true}
 	}
 	if s.plan.ExhaustFault {
 		// … except the wide-tree cases in which an object uses up its retries and is then listed in a failing batch call
@@ -571,6 +579,12 @@ func (s *scn) runOp(step int, o opPlan) {
 		c.inc = o.Paths
 		s.countForms("checkout-arg", o.Paths)
 		args = append([]string{"lfs", "checkout"}, patTexts(o.Paths)...)
+	}
+	if o.FaultVictim != "" {
+		s.armRecentVictim(c, o)
+	}
+	if o.AlwaysViaC {
+		args = append([]string{"-c", "lfs.fetchrecentalways=true"}, args...)
 	}
 	if o.Shape != "" || s.refObjs != "" {
 		c.preStore = s.validStore()
